@@ -832,7 +832,7 @@ const FAULTS: &[&str] =
 /// the fault kinds of the model (`FAULTS`) plus two that have their own model ops: real accept errors and
 /// keep-alive connections carrying several requests
 const FAULTS2: &[&str] = &[
-    "garbage", "halfopen", "reset", "bighead", "abort", "partial", "keepalive", "binary", "badversion", "concurrent", "accepterr", "accepterr", "ka", "ka",
+    "garbage", "halfopen", "reset", "bighead", "abort", "partial", "keepalive", "binary", "badversion", "concurrent", "accepterr", "accepterr", "ka", "ka", "flood",
 ];
 
 /// performs one faulty / unusual connection from `src`; returns sockets to keep open until the case ends.
@@ -2050,6 +2050,30 @@ fn run_case(r: &mut Rng, env: &Env, spec: CaseSpec, tag: &str, out: &mut Out) {
                 if let Some((op, ans)) = do_ka(&l, &list, Some(&p), &reqs, out) {
                     out.op(&op, &ans);
                 }
+                continue;
+            }
+            if kind == "flood" {
+                // (round 3, after seed C18-5) a long run of connections that each end in an error on the server side:
+                // anything the listener accumulates per failed connection (a leaked permit, a counter that is only
+                // decremented on the success path, a task that never ends) shows only after dozens or hundreds of them
+                let n = r.range(70, 320);
+                for _ in 0..n {
+                    let k2 = *r.pick(&["reset", "abort", "reset", "abort", "badrequest"]);
+                    let q = *r.pick(&peers);
+                    if k2 == "badrequest" {
+                        if let Some((dst, seen)) = l.route(&q) {
+                            if let Ok(mut t) = connect_from(Some(q.ip()), dst) {
+                                let _ = t.write_all(b"\x00\x01 not http\r\n\r\n");
+                                drop(t);
+                                out.op(&format!("allow fault garbage {}", seen.tok()), "ok");
+                            }
+                        }
+                    } else if let Some(op) = do_fault(&l, &list, k2, &q, r, out, &mut keep) {
+                        out.op(&op, "ok");
+                    }
+                }
+                out.count("fault:flood");
+                out.count_n("fault:flood-connections", n as u64);
                 continue;
             }
             if kind == "concurrent" {
